@@ -256,9 +256,19 @@ def build_sysloss(rec, dk_dict=None, onehot=None):
     pkeys = ["k1", "k2"]
     names = [n["name"] for n in rec["nets"]]
     aff = (lambda i, o, p: o * p.eq_params["k1"] + p.eq_params["k2"]) if rec.get("ot") == "affine" else None
-    u_dict = {n["name"]: make_pinn([n["V"]], eq_type, output_transform=aff) for n in rec["nets"]}
-    pd = jinns.parameters.ParamsDict(nn_params={k: u.init_params() for k, u in u_dict.items()},
-                                     eq_params={k: jnp.array(float(v)) for k, v in zip(pkeys, rec["th"])})
+    shared = bool(rec.get("shared"))
+    if shared:
+        # ONE network whose outputs are the unknowns (as create_PINN(shared_pinn_outputs=...) builds them): every PINN holds the same
+        # network and its own output slice; as documented the user passes the SAME parameter set under every key
+        allf = [n["V"] for n in rec["nets"]]
+        u_dict = {n["name"]: make_pinn(allf, eq_type, output_transform=aff, output_slice=jnp.s_[j:j + 1]) for j, n in enumerate(rec["nets"])}
+        common = next(iter(u_dict.values())).init_params()
+        pd = jinns.parameters.ParamsDict(nn_params={k: common for k in u_dict},
+                                         eq_params={k: jnp.array(float(v)) for k, v in zip(pkeys, rec["th"])})
+    else:
+        u_dict = {n["name"]: make_pinn([n["V"]], eq_type, output_transform=aff) for n in rec["nets"]}
+        pd = jinns.parameters.ParamsDict(nn_params={k: u.init_params() for k, u in u_dict.items()},
+                                         eq_params={k: jnp.array(float(v)) for k, v in zip(pkeys, rec["th"])})
 
     def mk_eq(R):
         def resid(inputs, ud, p):
@@ -289,7 +299,7 @@ def build_sysloss(rec, dk_dict=None, onehot=None):
 
     dyn = {e["name"]: mk_eq(e["R"]) for e in rec["eqs"]}
     kw = {}
-    scalar = rec["wform"] == "scalar"
+    scalar = rec["wform"] != "dict"
     rev = (lambda items: list(items)[::-1]) if rec.get("wrev") else (lambda items: list(items))
     wdyn = float(rec["eqs"][0]["w"]) if scalar else {e["name"]: float(e["w"]) for e in rev(rec["eqs"])}
     wu = lambda f: float(rec["wu"][0][f]) if scalar else {n: float(w[f]) for n, w in rev(zip(names, rec["wu"]))}
@@ -298,15 +308,28 @@ def build_sysloss(rec, dk_dict=None, onehot=None):
         wu = lambda f: ({n: (1.0 if n == onehot else 0.0) for n in names} if onehot != "*" else 1.0)
     if dk_dict is not None:
         kw["derivative_keys_dict"] = dk_dict
+    wf = rec["wform"] if onehot is None else "scalar"
     if lkind == "ode":
-        lw = jinns.loss.LossWeightsODEDict(dyn_loss=wdyn, initial_condition=wu("ic"), observations=wu("obs"))
+        if wf == "nodyn":
+            lw = jinns.loss.LossWeightsODEDict(initial_condition=float(rec["wu"][0]["ic"]), observations=float(rec["wu"][0]["obs"]))
+        elif wf == "nocons":
+            lw = jinns.loss.LossWeightsODEDict(dyn_loss=float(rec["eqs"][0]["w"]))
+        else:
+            lw = jinns.loss.LossWeightsODEDict(dyn_loss=wdyn, initial_condition=wu("ic"), observations=wu("obs"))
         ic = {n["name"]: ((float(n["ic"]["t0"]), jnp.array([float(v) for v in n["ic"]["u0"]])) if n["ic"]["on"] else None) for n in rec["nets"]}
         if all(v is None for v in ic.values()):
             ic = None
         loss = jinns.loss.SystemLossODE(u_dict=u_dict, dynamic_loss_dict=dyn, initial_condition_dict=ic, loss_weights=lw, params_dict=pd, **kw)
     else:
-        lw = jinns.loss.LossWeightsPDEDict(dyn_loss=wdyn, norm_loss=wu("norm"), boundary_loss=wu("bnd"), observations=wu("obs"),
-                                          initial_condition=wu("ic"))
+        w0 = rec["wu"][0]
+        if wf == "nodyn":
+            lw = jinns.loss.LossWeightsPDEDict(dyn_loss=None, norm_loss=float(w0["norm"]), boundary_loss=float(w0["bnd"]),
+                                              observations=float(w0["obs"]), initial_condition=float(w0["ic"]))
+        elif wf == "nocons":
+            lw = jinns.loss.LossWeightsPDEDict(dyn_loss=float(rec["eqs"][0]["w"]))
+        else:
+            lw = jinns.loss.LossWeightsPDEDict(dyn_loss=wdyn, norm_loss=wu("norm"), boundary_loss=wu("bnd"), observations=wu("obs"),
+                                              initial_condition=wu("ic"))
         if any(n["bnd"] and n["bnd"][0]["kind"] != "none" for n in rec["nets"]):
             def mk_f(g):
                 def val(inputs):
